@@ -986,6 +986,29 @@ func genC17(g *G, sc *Scenario, tier string, seed uint64) {
 		mask = int(g.r.Uint64() % (1 << uint(n)))
 		maxItems = g.Intn(5)
 	}
+	big := idx%504 >= 480 && round%2 == 1 // a slice of every second round: large runs with many rejected entities
+	overlap := idx%504 >= 456 && idx%504 < 480 && round%2 == 1
+	if overlap {
+		// failures of consecutive trigger runs inside one retry delay
+		sc.Datasets = []string{"srcA", "sink"}
+		sc.Knobs["observeLogs"] = 1
+		onError := []any{map[string]any{"errorHandler": "reRun", "maxRetries": g.Range(1, 3), "retryDelay": g.PickInt([]int{700, 900, 1300})}}
+		if g.P(0.5) {
+			onError = append(onError, map[string]any{"errorHandler": "log"})
+		}
+		cfg := jobConfig("job1", map[string]any{"Type": "DatasetSource", "Name": "srcA"}, map[string]any{"Type": "DatasetSink", "Name": "sink"}, nil, "fullsync", 3)
+		cfg["paused"] = false
+		cfg["triggers"] = []any{map[string]any{"triggerType": "cron", "jobType": "fullsync", "schedule": "@every 10m", "onError": onError}}
+		sc.Ops = append(sc.Ops, Op{K: "addJob", M: cfg})
+		sc.Ops = append(sc.Ops, Op{K: "batch", DS: "srcA", Ents: []Ent{{"id": MkE + "x00", "props": map[string]any{}, "refs": map[string]any{}}, {"id": MkE + "x01", "props": map[string]any{}, "refs": map[string]any{}}}})
+		sc.Ops = append(sc.Ops, Op{K: "tick", S: "job1", N: g.Range(2, 4), M: map[string]any{"sinkFailAlways": 1}})
+		sc.Note = "overlapping failures within one retry delay"
+		return
+	}
+	if big {
+		n = g.Range(40, 200)
+		maxItems = g.PickInt([]int{0, 0, 0, 50})
+	}
 	sc.Datasets = []string{"srcA", "sink"}
 	sc.Knobs["observeLogs"] = 1
 	jobType := "incremental"
@@ -1014,12 +1037,17 @@ func genC17(g *G, sc *Scenario, tier string, seed uint64) {
 	sc.Ops = append(sc.Ops, Op{K: "addJob", M: cfg})
 	var ents []Ent
 	var rej []any
+	every := g.Range(2, 6)
 	for i := 0; i < n; i++ {
-		id := fmt.Sprintf("%sx%02d", MkE, i)
+		id := fmt.Sprintf("%sx%03d", MkE, i)
 		ents = append(ents, Ent{"id": id, "props": map[string]any{MkS + "n": float64(i)}, "refs": map[string]any{}})
-		if mask&(1<<uint(i)) != 0 {
+		if (!big && mask&(1<<uint(i)) != 0) || (big && i%every == 0) {
 			rej = append(rej, id)
 		}
+	}
+	if big {
+		batch = g.PickInt([]int{16, 32, 64, n})
+		cfg["batchSize"] = batch
 	}
 	spec["rejectIds"] = rej
 	sc.Ops = append(sc.Ops, Op{K: "batch", DS: "srcA", Ents: ents})
